@@ -325,4 +325,4 @@ def run(rep, tier, seed, only=None):
                    "block extraction when two inputs of the attached circuit were identified with one base gate"]
     rep.rule = "program = (base, attached, call); every kept output and every gate compared with the reference composition by z3 over all inputs"
     rep.explanation = "translation validation of each composition call"
-    rep.pmap(unit, [seed * 131 + s for s in range(48 if thorough else 16)])
+    rep.pmap(unit, [seed * 131 + s for s in range(192 if thorough else 64)])
